@@ -306,6 +306,12 @@ impl<T: Chunky> Spec for ChunkAddSpec<T> {
     fn init(&self) -> Vec<CState<T>> {
         vec![CState { est: Ok(T::fresh()), items: vec![] }]
     }
+    fn check_init(&self, s: &CState<T>) -> Vec<Violation> {
+        match &s.est {
+            Ok(e) => (self.judge)(&[], &e.observe_()),
+            Err(_) => vec![],
+        }
+    }
     fn ops(&self, s: &CState<T>) -> Vec<T::Item> {
         if s.est.is_err() {
             return vec![];
